@@ -312,13 +312,20 @@ func (g *lgen) genAsync(depth int) int {
 	n := 1 + W.Draw(3)
 	for i := 0; i < n; i++ {
 		st := lastmt{}
-		switch W.Draw(9) {
+		switch W.Draw(11) {
 		case 0, 1, 2:
 			st.kind, st.id = asAwait, g.newID('w')
 			st.val = g.genVal(true, depth)
 		case 3, 4:
 			st.kind, st.id, st.idc = asTryAwait, g.newID('w'), g.newID('c')
 			st.val = g.genVal(true, depth)
+		case 9:
+			st.kind, st.val = asReturn, g.intVal()
+			if len(g.have) > 0 {
+				st.val = lval{lvProm, g.pick()} // returning a promise costs the thenable-job ticks
+			}
+		case 10:
+			st.kind, st.val = asReturn, lval{lvThen, g.genThenable()}
 		case 5, 6:
 			if g.nested < lsMaxNested {
 				g.nested++
